@@ -31,6 +31,15 @@ def repo():
     return _done["pkg"]
 
 
+def _shim_time(mod):
+    """Should a module of the repository use ``time`` (none does today), it reads the virtual clock."""
+    import time as _time
+    from . import simnet
+
+    if getattr(mod, "time", None) is _time:
+        mod.time = simnet.SimTimeModule()
+
+
 def pool_seams(lines=True):
     """threadpool.py on simulated threads, queue and clock."""
     repo()
@@ -40,6 +49,7 @@ def pool_seams(lines=True):
     if "pool" not in _done:
         tp.threading = simthreading.module()
         tp.queue = simqueue.module()
+        _shim_time(tp)
         _done["pool"] = tp
     if lines and "pool-lines" not in _done:
         core.instrument_modules([tp])
@@ -84,6 +94,8 @@ def net_seams(lines=("server", "client", "pool")):
         jc.socket = sm
         jc.uuid = _UUIDShim
         js.fcntl = None
+        _shim_time(jc)
+        _shim_time(js)
         _done["net"] = True
     mods = []
     if "server" in lines and "server-lines" not in _done:
